@@ -191,11 +191,13 @@ def families():
     def f7b(rng):
         # the three ways a named bind gets its value: the bindparam's own default, Executable.params() on the statement, execute-time
         # parameters; all three share one cache key
-        how = rng.choice(["default", "stmt", "stmt", "exec"])
+        how = rng.choice(["default", "stmt", "stmt", "exec", "callable"])
         mq = rng.choice([1, 5, 8, 10])
         owner = rng.choice(OWNERS)
         def build():
-            s = select(items.c.id).where(items.c.owner != owner).where(items.c.qty >= bindparam("mq", 2)).order_by(items.c.id)
+            # (a bind whose value comes from a callable evaluated at execution time shares the cache key of a plain-valued one)
+            bp = bindparam("mq", callable_=lambda: mq) if how == "callable" else bindparam("mq", 2)
+            s = select(items.c.id).where(items.c.owner != owner).where(items.c.qty >= bp).order_by(items.c.id)
             if how == "stmt":
                 s = s.params(mq=mq)
             return s, ({"mq": mq} if how == "exec" else None), None
